@@ -224,6 +224,12 @@ func (p *port) run() {
 				if c.op == "recv" {
 					break
 				}
+				if len(p.got) > drainBudget {
+					// a stream that does not end (a source that should have stopped): stop receiving so that the stage blocks,
+					// the bubble becomes quiescent and the monitors can speak
+					p.w.log(p.name, "drain-budget", 0)
+					break
+				}
 				if p.w.cancelFlag.Load() && p.w.limitDrain.Load() {
 					// a consumer that keeps draining after cancel takes at most postCancelBudget more values:
 					// a stage that never stops would otherwise keep the bubble busy forever (no quiescence)
@@ -268,6 +274,9 @@ func toInt(v any) int {
 }
 
 const postCancelBudget = 200
+
+// drainBudget: no case of the engine delivers this many values on one port
+const drainBudget = 400000
 
 // snapshot of a port at a quiescent point
 type snap struct {
